@@ -250,7 +250,10 @@ def wake_outside_lock(ctx, db):
                 ls = trace_lockset(tr)
                 # the caller's lock (unique_lock& parameter) is held on entry
                 rel = set()
+                alias_ = lock_aliases(tr)
                 for i, it in enumerate(tr):
+                    if it.k == 'call' and it.get('recv') and norm(it.get('field') or '') in alias_ and norm(it.get('callee') or '') in ('std::unique_lock::unlock', 'std::unique_lock::lock'):
+                        it = Item(it, recv=alias_[norm(it['field'])])
                     if it.k == 'call' and norm(it.get('callee')) == 'std::unique_lock::unlock' and it.get('recv') in entry:
                         rel.add(it.get('recv'))
                     if it.k == 'call' and norm(it.get('callee')) == 'std::unique_lock::lock' and it.get('recv') in entry:
